@@ -475,7 +475,7 @@ def evaluate_overlap(case, r):
                                  "trace at position %d: %s vs %s"
                                  % (i, got[:i + 2], exp[:i + 2])))
             if fin[1] in ("STOPPED", "INITIALIZED") and fin[2] in ("INITIALIZED", "STARTED") \
-                    and fin[3] < r.ref_time(ref.end):
+                    and fin[3] <= r.ref_time(ref.end):
                 findings.append(("drain-stuck",
                                  "after the script %d further start() calls did not "
                                  "bring the replication to its end (state %s)"
@@ -548,6 +548,7 @@ def execute(case):
                                          (h[3] or "").split("#")[0])
                                         for h in H if h[0] == "st"})
     res["nontrivial"] = nontrivial
+    res["sample_class"] = "layer-" + layer + ("-enumerated" if "enumerated" in case else "")
     res["case_digest"] = common.digest8([case["program"], case["commands"],
                                          case.get("listener_cmds"), case.get("pause_at"),
                                          sites])
